@@ -488,7 +488,41 @@ _X_ROW = ("pandas glue proper (dtype round trip through 'category', index alignm
 
 _RC_CELLS = R.product_cells(R.int_cells("VP_XT", 0, 3), R.int_cells("VP_XV", 0, 1))
 
+# ================================================================== 9. which columns a sidecar references
+_REF_NAMES = ["r", "a-b", "_", "x2", "0", "HED", "Ab", "resp-type_2"]
+_SEP = ["", ",", " ", "(", "a"]
+
+
+def refs_found(n1: int, n2: int, two: bool, a: int, b: int) -> bool:
+    """
+    pre: 0 <= n1 < len(_REF_NAMES) and 0 <= n2 < len(_REF_NAMES)
+    pre: 0 <= a < len(_SEP) and 0 <= b < len(_SEP)
+    post: _
+    """
+    # Sidecar.get_column_refs decides which columns are spliced instead of listed: every {name} written in any
+    # HED string of the sidecar must be found - names may contain letters of either case, digits, '_' and '-'.
+    # (pandas' .str.findall realises its input, so the small selector ranges are enumerated by the solver.)
+    x, y = _REF_NAMES[n1], _REF_NAMES[n2]
+    cat = _SEP[a] + "{" + x + "}" + _SEP[b]
+    doc = {"t": {"HED": {"s": cat, "u": "Up"}}, "w": {"HED": ("{" + y + "}, L/#") if two else "L/#"},
+           "n": {"Levels": {"a": "{zz}"}}}
+    sc = sidecar_stub.load(doc)
+    got = sorted(sc.get_column_refs())
+    want = [x]
+    if two and y != x:
+        want.append(y)
+    return got == sorted(want)
+
+
 HARNESSES = [
+    R.H("refs_found", ["hed.models.sidecar.Sidecar.get_column_refs"],
+        quick=R.tier(timeout=300, bound="8 reference names (letters of both cases, digits, '_', '-') x 5 separators on "
+                                        "either side x optional second reference in a value column (solver-enumerated: "
+                                        "pandas realises the strings)"),
+        what="get_column_refs returns exactly the names written in braces in the HED strings of HED-bearing columns "
+             "(and nothing from ignored columns), so that every such column is spliced rather than listed",
+        oracle="the names the harness wrote", stubs=["vp/sidecar_stub.load (decoded document instead of a JSON file)"],
+        outside="names outside the documented pattern [A-Za-z0-9_-]+"),
     R.H("column_kind", _T_MAP,
         quick=R.tier(env={"VP_N": 3}, timeout=120, bound="12 entry shapes x every string s with len(s) <= 3 x i in -1..1"),
         thorough=R.tier(env={"VP_N": 5}, timeout=600, bound="12 entry shapes x every string s with len(s) <= 5 x i in -1..1"),
